@@ -146,7 +146,7 @@ func runC18(rc *RunCtx) {
 			if k.SetParams(root, params) != nil {
 				return
 			}
-			k.SetMinterState(root, freshMinterState(harness.T0))
+			k.SetMinterState(root, cfg.freshState(harness.T0))
 			grid := cfg.grid(gridN)
 			var cad []time.Duration
 			var rec func(ctx sdk.Context, i int)
